@@ -76,6 +76,15 @@ Theorem c01_parse_many : forall reg s a b c, trim_space s = a ++ tilde :: b ++ t
 Proof. exact parse_range_many. Qed.
 Print Assumptions c01_parse_many.
 
+(* ... and these four cases are all there is: every trimmed range string falls under c01_parse_empty,
+   c01_parse_single, c01_parse_pair or c01_parse_many *)
+Theorem c01_parse_cases_exhaustive : forall t : bytes,
+  t = [] \/ (t <> [] /\ ~ In tilde t) \/
+  (exists a b, t = a ++ tilde :: b /\ ~ In tilde a /\ ~ In tilde b) \/
+  (exists a b c, t = a ++ tilde :: b ++ tilde :: c /\ ~ In tilde a /\ ~ In tilde b).
+Proof. exact range_string_cases. Qed.
+Print Assumptions c01_parse_cases_exhaustive.
+
 (* the level table regenerated from the source on this run is well formed *)
 Theorem c01_generated_table_wf : table_wf_b = true.
 Proof. exact table_wf. Qed.
